@@ -8,7 +8,7 @@ def plan(tier, seed):
     J = lambda i, f, **p: {"id": "C19:" + i, "module": "vf.persistjobs", "func": f, "params": p}  # noqa: E731
     jobs = [J("fjsp text [2,1]+[1,1] m=2", "text_job", shapes=[[2, 1], [1, 1]], NM=2), J("fjsp text single file", "text_job", shapes=[[1, 2]], NM=2),
             J("jssp read 2x2", "jssp_read_job", NJ=2, NM=2), J("jssp read 2x2 padded", "jssp_read_job", NJ=2, NM=2, max_ops=6),
-            J("npz generic", "npz_job", case="generic"), J("npz cvrp load_data", "npz_job", case="cvrp"), J("npz mtvrp load_data", "npz_job", case="mtvrp")]
+            J("npz generic", "npz_job", case="generic"), J("npz cvrp load_data", "npz_job", case="cvrp"), J("npz mtvrp load_data", "npz_job", case="mtvrp"), J("npz cvrp load_data bit-exact", "npz_job", case="cvrp_bits", B=2, n=1)]
     if tier == "thorough":
         jobs += [J("fjsp text [1,1]+[2,2] m=2", "text_job", shapes=[[1, 1], [2, 2]], NM=2), J("fjsp text [2,1] m=3", "text_job", shapes=[[2, 1]], NM=3),
                  J("fjsp text [1,1,1]+[1,2,1] m=2", "text_job", shapes=[[1, 1, 1], [1, 2, 1]], NM=2), J("jssp read 3x2", "jssp_read_job", NJ=3, NM=2), J("jssp read 2x3", "jssp_read_job", NJ=2, NM=3),
